@@ -34,7 +34,10 @@ def _worker(job):
                 break
         ctx.undecided("run", "unmodelled: %s%s" % (e, where))
     except Exception as e:
-        err = "".join(traceback.format_exception(type(e), e, e.__traceback__))[-3000:]
+        # an exception escaping from the code under contract (e.g. changed code that no longer fits the stubs of its
+        # callees) leaves this configuration undecided; the property's concrete driver still runs on the real code
+        tb = "".join(traceback.format_exception(type(e), e, e.__traceback__))
+        ctx.undecided("run", "configuration raised %s: %s | %s" % (type(e).__name__, str(e)[:200], tb[-1200:].replace("\n", " / ")))
     return {"cfg": cfg, "canary": canary, "obls": ctx.obls, "functions": sorted(ctx.functions),
             "stubs": sorted(ctx.stubs), "assumed": sorted(ctx.assumed | st.ASSUMED),
             "prims": dict(st.PRIMS_USED), "generic": sorted(alg.GENERIC_POSITION)[:20],
